@@ -20,6 +20,7 @@ Proof.
     destruct (ppath_eqb np (pf_rel f)); [apply IH|].
     destruct (contained (c_var c) (w_fs w) f np) as [[|]|]; try (intros E; inversion E; subst; exists []; reflexivity).
     destruct (parents_contained (w_fs w) f np) as [[|]|]; try (intros E; inversion E; subst; exists []; reflexivity).
+    destruct (source_contained (w_fs w) f) as [[|]|]; try (intros E; inversion E; subst; exists []; reflexivity).
     destruct (renamer c w cw (pf_rel f) np false) as [w1 [e1|]].
     + destruct (is_file_exists e1).
       * intros E. destruct (IH _ _ _ E) as [n Hn]. exists (n ++ [(pf_dir f, pf_rel f, np)]). rewrite <- app_assoc. exact Hn.
@@ -53,6 +54,7 @@ Theorem one_free_rename_is_exact c f t s cwd cwd1 np sp sn dpar dname :
   chdir s (pf_dir f) = Some cwd1 ->
   generate MName f (RText t) = inl np -> ppath_eqb np (pf_rel f) = false ->
   contained fixed s f np = Some true -> parents_contained s f np = Some true ->
+  source_contained s f = Some true ->
   resolve s cwd1 (to_upath (pf_rel f)) false = WFound sp sn -> sp <> [] ->
   resolve s cwd1 (to_upath np) false = WMissing dpar dname ->
   name_eqb dname dotdot = false ->
@@ -63,11 +65,11 @@ Theorem one_free_rename_is_exact c f t s cwd cwd1 np sp sn dpar dname :
   r_states r = [rekey sp (dpar ++ [dname]) s] /\
   r_report r = [(pp_str (pf_rel f), pp_str np, false)] /\ r_calls r = [(CRename, COk)].
 Proof.
-  intros Cm Cd Cf Cv H1 H2 H3 H4 H5 Rs Hsp Rd Hdd Hbl Hinv.
+  intros Cm Cd Cf Cv H1 H2 H3 H4 H5 H6 Rs Hsp Rd Hdd Hbl Hinv.
   destruct (name_generator_keeps_parent MName f t np ltac:(discriminate) H2) as [Par _].
   assert (PE : ppath_eqb (pp_parent (pf_rel f)) (pp_parent np) = true) by (apply ppath_eqb_spec; congruence).
   unfold run. cbn [first_pass]. cbn [init_world w_fs].
-  rewrite Cm, H1, H2, H3, Cv, H4, H5.
+  rewrite Cm, H1, H2, H3, Cv, H4, H5, H6.
   unfold renamer, renamer_core. rewrite Cd, Cm, Cf, Cv.
   unfold file_renamer, guard_exists. cbn [fixed v_lexists_guard negb andb init_world w_fs].
   unfold lexists. rewrite Rd. rewrite PE. cbn [negb].
